@@ -21,6 +21,18 @@ impl<T: Write> WritePrinter<T> {
         &self.writer
     }
 
+    /// Verification hook: the underlying writer.
+    #[cfg(rusty_basic_verif)]
+    pub fn verif_inner(&self) -> &T {
+        &self.writer
+    }
+
+    /// Verification hook: the tracked column.
+    #[cfg(rusty_basic_verif)]
+    pub fn verif_last_column(&self) -> usize {
+        self.last_column
+    }
+
     fn print_as_is(&mut self, s: &str) -> std::io::Result<usize> {
         let bytes_written = self.writer.write(s.as_bytes())?;
         self.writer.flush()?;
